@@ -4,8 +4,9 @@ import BreezyVerif.Model.C46
 C46 driver.
 
   clean <fmt B|G> <opts> <layout>
-     opts   = 5 characters: unknown ignored detritus dry_run (T|F each) and the
-              prompt (`~` not asked, T|F the answer)
+     opts   = 6 characters: unknown ignored detritus dry_run (T|F each), the
+              prompt (`~` not asked, T|F the answer) and which nested-control-dir
+              filter the tree implements (`o` as found, `x` the proposed repair)
      layout = entries joined by `;` (parents before children, `-` = empty), entry =
               `<path>|<kind f|d|D|l>|<flags>`; path = names joined by `/`;
               D = link to a directory, l = other link;
@@ -47,17 +48,18 @@ def showPaths (ps : List Path) : String :=
   let l := (ps.map joinPath).mergeSort (fun a b => decide (a ≤ b))
   if l.isEmpty then "-" else ";".intercalate l
 
-def parseOpts (s : String) : Option Opts :=
+def parseOpts (s : String) : Option (Opts × Filter) :=
   match s.toList with
-  | [u, i, d, r, p] =>
-    match parseBools (String.ofList [u, i, d, r]) with
-    | some [u, i, d, r] =>
+  | [u, i, d, r, p, x] =>
+    match parseBools (String.ofList [u, i, d, r]),
+          (if x == 'o' then some Filter.asFound else if x == 'x' then some Filter.fixed else none) with
+    | some [u, i, d, r], some flt =>
       let o : Opts := { unknown := u, ignored := i, detritus := d, dryRun := r }
-      if p == '~' then some o
-      else if p == 'T' then some { o with prompt := some true }
-      else if p == 'F' then some { o with prompt := some false }
+      if p == '~' then some (o, flt)
+      else if p == 'T' then some ({ o with prompt := some true }, flt)
+      else if p == 'F' then some ({ o with prompt := some false }, flt)
       else none
-    | _ => none
+    | _, _ => none
   | _ => none
 
 def parseFmt (s : String) : Option Fmt :=
@@ -66,9 +68,10 @@ def parseFmt (s : String) : Option Fmt :=
 def handle : List String → String
   | ["clean", fmt, opts, layout] =>
     match parseFmt fmt, parseOpts opts, parseLayout layout with
-    | some fmt, some o, some f =>
-      let r := cleanTree fmt o f
-      s!"{showPaths ((extras fmt f).map (·.path))} {showPaths ((selected fmt o f).map (·.path))} {showBool r.2} {showPaths r.1.paths} {showPaths (nestedRoots f)}"
+    | some fmt, some (o, flt), some f =>
+      let keep := keepOf flt f
+      let r := cleanTreeWith keep fmt o f
+      s!"{showPaths ((extras fmt f).map (·.path))} {showPaths ((selectedWith keep fmt o f).map (·.path))} {showBool r.2} {showPaths r.1.paths} {showPaths (nestedRoots f)}"
     | _, _, _ => "bad-op"
   | ["det", h] =>
     match fromHex h with
